@@ -322,7 +322,7 @@ LIFE = [dict(PolA=a, PolB=b) for a, b in ((3, 3), (7, 3), (3 | 8, 3 | 16), (7 | 
 
 
 def c18(ctx):
-    inv = ["EncryptedExactly"]
+    inv = ["EncryptedExactly", "TransmitOnce"]
     cfgs = LIFE[:3] if ctx.quick() else LIFE
     for i, pol in enumerate(cfgs):
         c = dict(pol, MaxSend=1 if ctx.quick() else 2, MaxFlight=3, MaxQuery=1, MaxEnd=1, MaxTick=0 if ctx.quick() else 1)
